@@ -597,7 +597,7 @@ var accessors = []accessor{
 	{"getSeconds", refdate.SecFromTime},
 	{"getMilliseconds", refdate.MsFromTime},
 	{"getYear", func(t float64) float64 { return refdate.YearFromTime(t) - 1900 }}, // B.2.4
-	{"getTimezoneOffset", func(t float64) float64 { return 0 }},                     // (t - LocalTime(t)) / msPerMinute
+	{"getTimezoneOffset", func(t float64) float64 { return 0 }},                    // (t - LocalTime(t)) / msPerMinute
 }
 
 var formatters = []string{"toString", "toDateString", "toTimeString", "toLocaleString", "toLocaleDateString", "toLocaleTimeString", "toUTCString", "toGMTString"}
@@ -819,7 +819,7 @@ func checkOne(c *run.Ctx, in Input) {
 				finite++
 			}
 			c.Feature("setter:" + st.Method)
-			if hasHuge(st.Args) {
+			if st.Method != "setTime" && hasHuge(st.Args) {
 				c.Feature("fields:huge(region KF-C12-huge-field)")
 			}
 		}
@@ -858,7 +858,9 @@ func checkOne(c *run.Ctx, in Input) {
 		}
 		c.Sample(in)
 		c.Feature("op:iso")
-		c.Feature(isoShape(in.S))
+		for _, f := range isoShape(in.S) {
+			c.Feature(f)
+		}
 		if exp == exp {
 			c.Feature("iso:legal")
 			c.Nontrivial("iso|" + in.S)
@@ -923,31 +925,32 @@ func checkOne(c *run.Ctx, in Input) {
 	}
 }
 
-func isoShape(s string) string {
-	shape := "iso:"
+// isoShape names the format variant of a 15.9.1.15 string: year form, date
+// form, time form, zone form.
+func isoShape(s string) []string {
 	i := 4
+	year := "iso-year:YYYY"
 	if s[0] == '+' || s[0] == '-' {
-		shape += "±YYYYYY"
-		i = 7
-	} else {
-		shape += "YYYY"
+		year, i = "iso-year:±YYYYYY", 7
 	}
 	rest := s[i:]
-	d := rest
-	tm := ""
+	d, tm := rest, ""
 	if k := strings.IndexByte(rest, 'T'); k >= 0 {
 		d, tm = rest[:k], rest[k:]
 	}
-	shape += []string{"", "-MM", "-MM-DD"}[len(d)/3]
-	if tm != "" {
-		z := ""
-		switch {
-		case strings.HasSuffix(tm, "Z"):
-			z, tm = "Z", tm[:len(tm)-1]
-		case len(tm) > 6 && (tm[len(tm)-6] == '+' || tm[len(tm)-6] == '-'):
-			z, tm = "±HH:mm", tm[:len(tm)-6]
-		}
-		shape += map[int]string{6: "THH:mm", 9: "THH:mm:ss", 13: "THH:mm:ss.sss"}[len(tm)] + z
+	out := []string{year, "iso-date:" + []string{"year-only", "-MM", "-MM-DD"}[len(d)/3]}
+	if tm == "" {
+		return append(out, "iso-time:none")
 	}
-	return shape
+	z := "iso-zone:none"
+	switch {
+	case strings.HasSuffix(tm, "Z"):
+		z, tm = "iso-zone:Z", tm[:len(tm)-1]
+	case len(tm) > 6 && (tm[len(tm)-6] == '+' || tm[len(tm)-6] == '-'):
+		z, tm = "iso-zone:±HH:mm", tm[:len(tm)-6]
+	}
+	if strings.HasPrefix(tm, "T24") {
+		out = append(out, "iso-time:hour-24")
+	}
+	return append(out, "iso-time:"+map[int]string{6: "THH:mm", 9: "THH:mm:ss", 13: "THH:mm:ss.sss"}[len(tm)], z)
 }
